@@ -24,4 +24,28 @@ extra = '''ADDITIONAL REQUIREMENT FOR THIS ROUND: other engineers have already p
 %s
 Do NOT touch those functions again and do not repeat their mechanisms.  Look for mechanisms that are far from the surface and in less travelled code: an interaction between two functions or two modules; state that is only wrong after a particular *sequence* (a reconnect during a specific statement, a second client arriving at a specific moment, a partial write followed by a disconnect, a termination signal at a particular point); behaviour that differs only for a particular *shape* of configuration or input (aliases, unused plugs, duplicate targets, zero-padded names, several devices with different script variants, hosts with several addresses, telemetry or exprange switched on, coprocess vs tcp devices, ping scripts, very long lines, buffers that wrap around or grow); or an arithmetic/boundary slip that needs a specific size.  Each of your two changes must use a different mechanism and touch a different function (preferably a different file).
 ''' % '\n'.join('  - ' + t for t in touched)
+FOCUS = {
+ 'C01': 'src/powerman/parse_util.c (aliases), src/powerman/pluglist.c, src/powerman/arglist.c, src/powerman/client.c (_hostlist_create_validated, _create_command)',
+ 'C02': 'src/powerman/client.c (_act_finish, _client_query_reply/_client_power_reply, dev_check_actions path), src/powerman/powerman.c (exit status), src/powerman/arglist.c',
+ 'C03': 'src/powerman/arglist.c, src/powerman/client.c (status/temp/beacon reply formatting, exprange), src/libcommon/xregex.c',
+ 'C04': 'src/powerman/powermand.c (_select_loop), src/libcommon/xpoll.c, src/powerman/client.c (cli_post_poll, _handle_read), src/powerman/device.c (_update_timeout, _timeout, dev_post_poll)',
+ 'C05': 'src/powerman/device_pipe.c, src/powerman/device.c (dev_post_poll, _time_to_reconnect), src/powerman/powermand.c',
+ 'C06': 'src/powerman/client.c (accept path, _handle_read, _destroy_client, cli_post_poll), src/liblsd/list.c, src/libcommon/xread.c / fdutil.c',
+ 'C07': 'src/powerman/device_pipe.c, src/powerman/device_tcp.c (connect / finish_connect / address list), src/libcommon/xregex.c, src/libcommon/hprintf.c',
+ 'C08': 'src/powerman/device.c (_process_delay, _process_foreach, exec-context push/pop, _enqueue_ping), src/libcommon/hprintf.c, src/powerman/parse_tab.y (makeStmt, interpretation lists)',
+ 'C09': 'src/liblsd/cbuf.c (any function except cbuf_reader and cbuf_read_to_fd), src/powerman/device_pipe.c, src/powerman/client.c (_handle_write), src/powerman/device.c (_handle_read, _handle_write)',
+ 'C10': 'src/liblsd/list.c (iterators, list_node_create/destroy, prepend/append), src/powerman/device.c (_enqueue_ping, _act_completion order, dev_enqueue_actions)',
+ 'C11': 'src/powerman/client.c (_find_client, telemetry/diag routing, _destroy_client, listener/accept), src/powerman/arglist.c (reference counts), src/powerman/device.c (client_id handling)',
+ 'C12': 'src/powerman/device_pipe.c (reconnect of a coprocess), src/powerman/device_tcp.c, src/powerman/device.c (_time_to_reconnect table and retry_count, ping)',
+ 'C13': 'src/powerman/pluglist.c, src/powerman/parse_util.c (conf_addnodes, aliases, _validate_config), src/powerman/parse_tab.y (makeNode/makeAlias/makeDevice)',
+ 'C14': 'src/liblsd/hostlist.c (push/uniq/delete_nth/ranged_string/_get_bracketed_list/hostrange_cmp/coalesce — NOT hostlist_find, hostrange_hn_within, hostrange_prefix_cmp)',
+ 'C15': 'src/powerman/client.c (reply formatting, _client_printf, banner, prompt), src/powerman/client_proto.h, src/libcommon/hprintf.c, src/powerman/debug.c (dbg_memstr)',
+ 'C16': 'src/powerman/powerman.c (the CLI: option handling, _process_response, _expect, exit), src/powerman/libpowerman.c (_parse_response, pm_node_next, _server_recv_response)',
+ 'C17': 'shipped data files under etc/devices/*.dev and t/etc/*.dev, src/powerman/parse_tab.y (script-kind tokens), src/powerman/parse_lex.l',
+ 'C18': 'src/powerman/parse_lex.l (strings, includes, numbers), src/powerman/parse_tab.y (error productions, makeStmt), src/powerman/parse_util.c (conf_init, _validate_config)',
+ 'C19': 'src/redfishpower/redfishpower.c (command loop, setplugs, power_cmd_process / waiters, --test-mode), src/redfishpower/plugs.c',
+ 'C20': 'src/powerman/powermand.c (signal handling, exit pipe, shutdown order), src/powerman/device_pipe.c, src/powerman/client.c (cli_fini, listener), src/powerman/device.c (dev_fini/dev_destroy), src/powerman/parse_util.c (conf_fini)',
+}
+extra += '''FOCUS FOR THIS ROUND: place each of your two changes in one of these less-tested places (two different files if possible): %s.
+''' % FOCUS.get(pid, 'anywhere not listed above')
 print(head + 'Here is a semantic property the project is supposed to satisfy:\n\n  %s: %s\n  STATEMENT: %s\n  QUANTIFIED OVER: %s\n\nYour task:' % (pid, p['title'], p['statement'], p['quantifier']['text'] if isinstance(p['quantifier'], dict) else p['quantifier']) + tail + extra)
